@@ -61,7 +61,9 @@ def random_merge(seqs, rng):
 
 POLL = ["D.poll", "D.pce", "D.pce", "D.park"]
 LATER_D = ["D.poll", "D.pce", "D.pce", "D.park", "D.poll", "D.pce", "D.pce"]
-ACC_ROUNDS = 3  # poll_connection_error calls in one poll of server::Connection::accept (idle connection)
+ACC_ROUNDS = 3  # poll_connection_error calls in one poll of server::Connection::accept and of client::Connection::
+                # poll_close / wait_idle on an idle connection (poll_control, poll_accept_recv, poll_accept_bi); the
+                # harness answers `bad-flow` when the real control flow makes another number of calls
 
 
 class C05(Prop):
@@ -183,6 +185,21 @@ class C05(Prop):
                     ks = [rng.choice(KINDS) for _ in range(n)]
                     L.append(self.line("acc", errs_for(ks, second=False),
                                        [d if x == "D.det:Q" else x for x in il] + acc + ["D.park"]))
+        # the client's driver in real-future mode: `clo` = client::Connection::poll_close called directly, `idl` = the
+        # wait_idle() future; the same 3 rounds, then the transport's poll_accept_bidi answers Pending (D.park), fails
+        # (D.det:<quic error>; poll_accept_bi raises it, then poll_close raises H3_STREAM_CREATION_ERROR behind it) or
+        # hands out a server-initiated bidirectional stream (D.det:I259.0: the error h3 detects itself at this point)
+        for mode in ("clo", "idl"):
+            for n in (1, 2):
+                for end in ("D.park", "D.det:Q", "D.det:B"):
+                    for il in interleavings([acc + [end]] + [["S%d" % (k + 1)] * 2 for k in range(n)]):
+                        if n == 2 and not big and rng.random() < 0.65:
+                            continue
+                        tag[0] += 1
+                        d = "D.det:" + mk_err(rng.choice(["Qi", "Qa", "Qt", "Qu"]), rng, tag[0] % 97)
+                        ks = [rng.choice(KINDS) for _ in range(n)]
+                        sub = {"D.det:Q": d, "D.det:B": "D.det:I259.0"}
+                        L.append(self.line(mode, errs_for(ks, second=False), [sub.get(x, x) for x in il] + acc + ["D.park"]))
         # random longer histories: several polls, detections, up to 3 handles raising up to 3 errors
         for _ in range(20000 if big else 3000):
             n = rng.randrange(1, 4)
